@@ -221,3 +221,21 @@ def validate_family(run, fam, name):
         o.inconclusive("family programs disagree although no obligation has a counterexample "
                        f"(code outside the encoded kernels?): {bad[:2]}")
     return bad
+
+
+def no_panic(run, oid, desc, ex, ends, hyp, names, replay, functions=None, prefer=None):
+    """Obligation: under hyp no path of the kernel ends in a panic (overflow assert, unwrap on the
+    wrong variant, explicit panic) and every input is covered by some non-panicking path end."""
+    ob = run.ob(oid, "E2", desc, functions)
+    pan = [p for p in ends if p.kind == "panic"]
+    good = [p for p in ends if p.kind in ("return", "loop_back")]
+    other = [p for p in ends if p.kind not in ("return", "loop_back", "panic")]
+    if other:
+        return ob.inconclusive(f"unexpected path ends: {other[:2]}")
+    claim = z3.And(z3.Not(disj([conj(p.cond) for p in pan])), disj([conj(p.cond) for p in good]))
+    prove(run, ob, ex, hyp, claim, names, replay, prefer=prefer)
+    ob.detail += f"; {len(pan)} panic path ends, {len(good)} normal path ends"
+    if pan and not run.samples_has(oid):
+        run.samples.append({"obligation": ob.id, "panic_sites": sorted({p.detail for p in pan})[:6],
+                            "normal_paths": len(good)})
+    return ob
